@@ -4,12 +4,12 @@ import shutil, json, os, re, glob, concurrent.futures as cf
 import vf
 
 KINDS = {
-    "C01": {"NoMisroute", "NoReuseWhileOutstanding", "ResponseReaches"},
+    "C01": {"NoMisroute", "NoReuseWhileOutstanding", "ResponseReaches", "TimeoutHonoured"},
     "C06": {"OutcomeOnce", "OutcomeAllowed", "ReleaseOnce", "ObserverOnce", "NoLeak", "Conservation",
-            "CloseReturns", "RequestEnds"},
+            "CloseReturns", "RequestEnds", "TimeoutHonoured"},
 }
 MON_FIELDS = dict(ev="", seq=0, req=0, stream=0, tok="", echo="", outcome="", avail=0, closed=0, cap=0, what="")
-MON_EVENTS = {"call", "ret", "n_recv", "n_send", "x_release", "obs_finished", "obs_abandoned", "avail", "env_stuck", "env_expect_resp"}
+MON_EVENTS = {"call", "ret", "n_recv", "n_send", "x_release", "obs_finished", "obs_abandoned", "avail", "env_stuck", "env_expect_resp", "r_lookup", "r_discard", "env_early_timeout"}
 
 
 def project_for_monitor(events, conn_id):
@@ -17,12 +17,14 @@ def project_for_monitor(events, conn_id):
     for e in events:
         if e["ev"] not in MON_EVENTS:
             continue
-        if e["ev"] == "x_release" and e.get("conn") != conn_id:
+        if e["ev"] in ("x_release", "r_lookup", "r_discard") and e.get("conn") != conn_id:
             continue
         r = dict(MON_FIELDS)
         for k in r:
             if k in e:
                 r[k] = e[k]
+        if e["ev"] in ("r_lookup", "r_discard"):
+            r["stream"] = e.get("a", 0)      # (the hook reports the frame's stream id in field a)
         out.append(r)
     out.append(dict(MON_FIELDS, ev="end", seq=(events[-1]["seq"] + 1) if events else 1))
     return out
@@ -200,7 +202,7 @@ def run_conn(ctx, prop):
 # ---------------------------------------------------------------- strict conformance to Conn.tla
 
 CONF_DROP = {"obs_started", "obs_finished", "obs_abandoned", "avail", "wire", "frame_exp", "env_cancel", "env_failwrite",
-             "written", "closed_ret", "env_held", "env_unhold", "env_expect_resp", "env_extclose_ret", "env_conn", "n_readerr", "env_unsettled", "env_stuck",
+             "written", "closed_ret", "env_held", "env_unhold", "env_expect_resp", "env_early_timeout", "env_extclose_ret", "env_conn", "n_readerr", "env_unsettled", "env_stuck",
              "w_sem", "w_release", "q_enq", "f_flush", "f_ret"}
 CONF_FIELDS = dict(ev="", seq=0, req="", stream=0, a=0, err="none", wn=0, werr="none", tl=0)
 
